@@ -146,3 +146,20 @@ Proof.
     + symmetry; exact S.
   - intros [= <-]. symmetry; exact S.
 Qed.
+
+(** ---------- C12: blank padding between sections ---------- *)
+(** the grammar's items with blank-line numbers forgotten *)
+Definition forget_ln (it : sitem) : sitem := match it with Err (EBlank _) => Err (EBlank 0) | x => x end.
+Lemma spec_sections_idx rs : forall cur i j, map forget_ln (spec_sections cur i rs) = map forget_ln (spec_sections cur j rs).
+Proof.
+  induction rs as [|x rest IH]; intros cur i j; cbn [spec_sections]; [reflexivity|].
+  destruct (classify x) as [|h|d|e t|e]; try reflexivity.
+  - destruct cur; [reflexivity|apply IH].
+  - destruct cur; [reflexivity|apply IH].
+  - destruct cur as [s|]; [|reflexivity]. destruct (dterm d); cbn [map]; [f_equal|]; apply IH.
+Qed.
+(** inserting a blank line anywhere between sections (i.e. where the grammar is not inside a section)
+    changes the items only in the line numbers quoted by blank-line errors *)
+Lemma spec_sections_pad_between r rest idx : classify r = RBlank ->
+  map forget_ln (spec_sections None idx (r :: rest)) = map forget_ln (spec_sections None idx rest).
+Proof. intros C. cbn [spec_sections]. rewrite C. apply spec_sections_idx. Qed.
